@@ -184,6 +184,11 @@ impl<S: Storage> Builder<S> {
 
     /// Resolve the column index of `expr` in `schema`.
     fn resolve_column_index_on_schema(&self, expr: Id, schema: &[Id]) -> RecExpr {
+        // the expression itself may be a column of the input (`WHERE flag`): `build_recexpr` only
+        // maps the children of the root
+        if let Some(idx) = schema.iter().position(|x| *x == expr) {
+            return vec![Expr::ColumnIndex(ColumnIndex(idx as _))].into();
+        }
         self.node(expr).build_recexpr(|id| {
             if let Some(idx) = schema.iter().position(|x| *x == id) {
                 return Expr::ColumnIndex(ColumnIndex(idx as _));
